@@ -25,6 +25,8 @@ mod fam_fold;
 mod fam_marginalize;
 mod fam_npy;
 mod fam_project;
+mod fam_stats;
+mod fam_statrel;
 mod fam_stream;
 mod sched;
 mod fam_text;
@@ -64,6 +66,8 @@ fn family(name: &str) -> Option<Runner> {
         "marginalize" => fam_marginalize::run,
         "npy" => fam_npy::run,
         "project" => fam_project::run,
+        "stats" => fam_stats::run,
+        "statrel" => fam_statrel::run,
         "stream" => fam_stream::run,
         "text" => fam_text::run,
         "toolchain" => fam_toolchain::run,
